@@ -288,7 +288,9 @@ PROPS["C04"] = dict(
     functions=["Message::validate_integrity", "MessageIntegrityCredentials::make_hmac_key", "MessageIntegrity::{verify,compute}", "MessageIntegritySha256::{verify,compute}",
                "Message::{from_bytes,raw_attribute}", "MessageAttributesIter::next", "hmac/sha1/sha2/md-5 crates (portable back-ends) on fixed inputs"],
     bounds="validation: every accepted message of <= 44 bytes (quick) / 64 bytes (thorough) with <= 2 attributes x every short-term password of 0..=3 ASCII bytes; MAC compare: all 2^160 (SHA-1) / all expected values of each length 16..32 (SHA-256) on one fixed (data, key); long-term key on one fixed credential triple",
-    outside=["collision / forgery resistance of HMAC-SHA1, HMAC-SHA256, MD5: 'any other key or any changed byte fails' is decided as 'every byte up to the integrity attribute, the length field, the key and the expected value reach the MAC unmodified' (recorder, symbolic probe index); that the MAC then differs is the cryptographic assumption",
+    outside=["QUICK TIER decides only the MAC comparison (all 2^160 expected values) and the builder side for SHA-256; what validate_integrity hands to the MAC (c04_validate_record_44: 25-35 min) is thorough-tier; "
+             "the long-term key derivation harness (MD5 of user:realm:pass, symbolic execution of the md-5 crate) did not finish in 55 min and is not claimed (experimental tier)",
+             "collision / forgery resistance of HMAC-SHA1, HMAC-SHA256, MD5: 'any other key or any changed byte fails' is decided as 'every byte up to the integrity attribute, the length field, the key and the expected value reach the MAC unmodified' (recorder, symbolic probe index); that the MAC then differs is the cryptographic assumption",
              "messages with more than 2 attributes; HMAC values for inputs other than the embedded vectors (independent implementation: CPython hmac/hashlib)"],
     stubs=["MessageIntegrity::verify / MessageIntegritySha256::verify -> recorder + unconstrained verdict in c04_validate_record and c04_long_term_key", _CRC_STUB],
     jobs=[
@@ -297,7 +299,7 @@ PROPS["C04"] = dict(
           unwindset=[["stun-types/src/message.rs", "validate_integrity", 3], ["kani/src/refdec.rs", "refdec", 14], ["raw:memcmp.0", "*", 34]]),
         K("c04::c04_validate_record", T, encodes="same with both integrity attributes in one message", bounds="len <= 64, <= 2 attributes, password <= 3 bytes", mem=45, timeout=7200,
           unwindset=[["stun-types/src/message.rs", "validate_integrity", 3], ["kani/src/refdec.rs", "refdec", 14], ["raw:memcmp.0", "*", 34]]),
-        K("c04::c04_long_term_key", encodes="long-term key == MD5(user:realm:password) (independent value)", bounds="credentials user/realm/pass", mem=10, timeout=2400),
+        K("c04::c04_long_term_key", X, encodes="long-term key == MD5(user:realm:password) (independent value)", bounds="credentials user/realm/pass", mem=10, timeout=2400),
         K("c04::c04_verify_sha1_all_expected", encodes="MessageIntegrity::verify(d,k,e) is Ok iff e == HMAC-SHA1(k,d) (independent value), compute returns it", bounds="all 2^160 e, fixed d (28 bytes) and k", mem=16, timeout=3000),
         K("blayout::c03_layout_l2_mi", T, encodes=_LAY_ENC + " [C04 builder side, SHA-1]", bounds="all contents", mem=40, timeout=7200),
         K("blayout::c03_layout_l3_sha", encodes=_LAY_ENC + " [C04 builder side, SHA-256]", bounds="all contents", mem=12, timeout=1500),
@@ -380,7 +382,7 @@ PROPS["C01"] = dict(
     ] + [K("c08::c08_" + n, encodes="T::from_raw on arbitrary raw attributes: no panic", bounds="as C08", mem=6) for n in _C08_DECODE]
       + [K("c01::c01_inspect_44", T, encodes="as inspect_32", bounds="len 0..=44", mem=24, timeout=7200),
          K("c01::c01_typed_xor_mapped_address", T, encodes="attribute::<XorMappedAddress>()", bounds="len 0..=32", mem=12, timeout=2400),
-         K("c01::c01_typed_username", T, encodes="attribute::<Username>()", bounds="len 0..=32", mem=12, timeout=2400),
+         K("c01::c01_typed_username", T, encodes="attribute::<Username>()", bounds="len 0..=32", mem=12, timeout=2400, unwindset=[["kani/src/util.rs", "utf8_ref", 14]]),
          K("c01::c01_typed_fingerprint", T, encodes="attribute::<Fingerprint>()", bounds="len 0..=32", mem=12, timeout=2400)],
 )
 
